@@ -8,7 +8,7 @@
    window lo < hi, and p is an element of the preselected window.  c_miss (which chunks are absent) and c_dat
    (what was stored) are arbitrary. *)
 From Coq Require Import ZArith List Bool.
-From KV Require Import Gen.Generated Base.Sx Model.Prune Model.LostMap Proofs.PruneP Proofs.LostMapP Proofs.LostMapNdP Proofs.C06P.
+From KV Require Import Gen.Generated Base.Sx Base.Str Model.Prune Model.LostMap Model.LostIO Proofs.PruneP Proofs.LostMapP Proofs.LostMapNdP Proofs.C06P Proofs.LostIOP Proofs.C06TopP.
 Import ListNotations.
 Open Scope Z_scope.
 
@@ -127,3 +127,353 @@ Theorem C06_model_matches_translated_source :
   gen_intersect_old_is_flags = true /\ gen_prune_front_keeps_last = true /\ gen_prune_back_keeps_last = true.
 Proof. exact generated_agree. Qed.
 Print Assumptions C06_model_matches_translated_source.
+
+(* ================================================================================================================ *)
+(* Round 2: the glue around the core (Model/LostIO.v) - "any preselection", "loading still succeeds", the errors option,
+   histories of the chunk store, the chunk_info records of an attached flags stream. *)
+From Coq Require Import String Permutation.
+
+
+(* --- any preselection: raw slice bounds (None, negative, beyond the end, backwards) --- *)
+(* What _prune_chunks works with after slice.indices and dask's normalize_slice: either the axis is skipped (None) and
+   then Python's range(n)[a:b] is everything, or a window 0 <= lo <= hi <= n that is not the whole axis and contains
+   exactly the elements Python selects.  Empty selections are included (lo = hi). *)
+Theorem C06_window_is_python_slice : forall n a b, 0 <= n ->
+  match norm_window n a b with
+  | None => forall x, 0 <= x < n -> py_selected n a b x
+  | Some (lo, hi) => 0 <= lo /\ lo <= hi /\ hi <= n /\ (lo <> 0 \/ hi < n) /\
+                     forall x, lo <= x < hi <-> py_selected n a b x
+  end.
+Proof. exact norm_window_spec. Qed.
+Print Assumptions C06_window_is_python_slice.
+Example C06_window_examples :
+  norm_window 10 (Some (-3)) None = Some (7, 10) /\ norm_window 10 (Some 0) (Some 12) = None /\
+  norm_window 10 (Some 7) (Some 3) = Some (7, 7) /\ norm_window 10 None (Some 0) = Some (0, 0) /\
+  norm_window 10 (Some (-20)) (Some (-1)) = Some (0, 9).
+Proof. exact ex_norm_window. Qed.
+
+(* _prune_chunks refuses (IndexError) exactly the indices with more elements than axes or an element that is not a
+   unit-step slice - it never answers them; when it answers, axis k carries prune_axis of the normalised window. *)
+Theorem C06_prune_chunks_rejects_exactly : forall chunks index,
+  prune_chunks chunks index = None <-> ~ ((List.length index <= List.length chunks)%nat /\ Forall unit_slice index).
+Proof. exact prune_chunks_rejects. Qed.
+Print Assumptions C06_prune_chunks_rejects_exactly.
+Theorem C06_prune_chunks_per_axis : forall chunks index r k cs,
+  prune_chunks chunks index = Some r -> nth_error chunks k = Some cs ->
+  let w := elt_window (zsum cs) (nth k index full_slice) in
+  nth_error r k = Some (let '(cs', st, sp, off) := prune_axis cs w in
+                        (cs', match w with None => None | Some _ => Some (st, sp) end, off)).
+Proof. exact prune_chunks_axis. Qed.
+Print Assumptions C06_prune_chunks_per_axis.
+Example C06_prune_chunks_examples :
+  prune_chunks [[2;3;5]; [4;4]] [PSlice (Some 2) (Some (-5)) None] = Some [([3], Some (0, 3), 2); ([4;4], None, 0)] /\
+  prune_chunks [[2;3;5]; [4;4]] [PSlice (Some 5) (Some 5) (Some 1); full_slice] = Some [([5], Some (0, 0), 5); ([4;4], None, 0)] /\
+  prune_chunks [[2;3;5]; [4;4]] [PSlice None None (Some 2)] = None /\
+  prune_chunks [[2;3;5]; [4;4]] [PInt 1] = None /\
+  prune_chunks [[2;3;5]; [4;4]] [full_slice; full_slice; full_slice] = None /\
+  prune_chunks [[2;3;5]] [POther] = None.
+Proof. exact ex_prune_chunks. Qed.
+
+(* TelstateDataSource(preselect=...): refused (IndexError) exactly when a key is not dumps / channels or a value is
+   not a unit-step slice; what is accepted reaches every array as (dumps, channels), a missing key as [:], no
+   preselection as the empty index, and is never refused further down. *)
+Theorem C06_preselect_rejected_exactly : forall pre, preselect_index pre = None <-> ~ preselect_valid pre.
+Proof. exact preselect_index_rejects. Qed.
+Print Assumptions C06_preselect_rejected_exactly.
+Theorem C06_preselect_accepted_windows : forall chunks pre, (2 <= List.length chunks)%nat -> preselect_valid pre ->
+  exists win, source_windows chunks pre = Some win /\
+    (pre = [] -> win = []) /\
+    (pre <> [] -> win = map (fun ci => elt_window (zsum (fst ci)) (snd ci))
+                            (combine chunks [match dict_get "dumps" pre with Some i => i | None => full_slice end;
+                                             match dict_get "channels" pre with Some i => i | None => full_slice end])).
+Proof. exact source_windows_accepts. Qed.
+Print Assumptions C06_preselect_accepted_windows.
+Example C06_preselect_examples :
+  preselect_index [("channels"%string, PSlice (Some 1) (Some 3) None)] = Some [full_slice; PSlice (Some 1) (Some 3) None] /\
+  preselect_index [] = Some [] /\
+  preselect_index [("dumps"%string, PSlice None None (Some 2))] = None /\
+  preselect_index [("ants"%string, full_slice)] = None /\
+  preselect_index [("dumps"%string, PInt 3)] = None.
+Proof. exact ex_preselect. Qed.
+
+(* Shape of what is loaded, for EVERY index get_dask_array accepts (empty selections included): per axis the number of
+   selected elements, delivered as blocks of positive size (no zero-size chunk is ever requested). *)
+Theorem C06_loaded_shape : forall chunks index win, Forall allpos chunks -> gda_windows chunks index = Some win ->
+  map zsum (chunks_of (get_dask_array chunks win)) =
+  map (fun cw => wsize (fst cw) (snd cw)) (combine chunks (pad_win win (List.length chunks))) /\
+  Forall allpos (chunks_of (get_dask_array chunks win)).
+Proof. exact gda_shape. Qed.
+Print Assumptions C06_loaded_shape.
+Example C06_empty_window_example :
+  ax_sizes (mk_axis [2;3;5] (Some (5, 5))) = [] /\ ax_chunks (mk_axis [2;3;5] (Some (5, 5))) = [5] /\
+  ax_sizes (mk_axis [2;3;5] (Some (4, 6))) = [1; 1] /\ ax_chunks (mk_axis [2;3;5] (Some (10, 10))) = [5].
+Proof. exact ex_empty_window_shape. Qed.
+
+(* The three clauses of the property for every raw index that is accepted: hypotheses in the caller's terms
+   (load_ok: the windows are those get_dask_array computes from the index, positive chunks, equal axis lengths, p an
+   element of the selection) - no assumption on the form of the slices. *)
+Theorem C06_any_preselection : forall c index p, load_ok c index p ->
+  model_vis c p = spec_vis c p /\ model_weights c p = spec_weights c p /\ model_flags c p = spec_flags c p.
+Proof. exact any_preselection. Qed.
+Print Assumptions C06_any_preselection.
+Example C06_any_preselection_nonvacuous : load_ok ex_cfg [PSlice (Some (-2)) None None] [1; 2; 1].
+Proof. exact ex_load_ok. Qed.
+
+(* Preselecting is the same as loading everything and selecting afterwards: element p of the preselected load is element
+   gpos c p (window start + p) of the load without preselection - values, zeros and every flag bit. *)
+Theorem C06_preselection_commutes : forall c p, cfg_ok c p ->
+  cfg_ok (no_win c) (gpos c p) /\
+  model_vis c p = model_vis (no_win c) (gpos c p) /\
+  model_weights c p = model_weights (no_win c) (gpos c p) /\
+  model_flags c p = model_flags (no_win c) (gpos c p).
+Proof. exact preselect_commutes. Qed.
+Print Assumptions C06_preselection_commutes.
+Example C06_preselection_commutes_example :
+  gpos ex_cfg [1; 2; 1] = [2; 2; 1] /\ model_vis (no_win ex_cfg) [2; 2; 1] = model_vis ex_cfg [1; 2; 1] /\
+  model_flags (no_win ex_cfg) [1; 2; 1] = model_flags ex_cfg [0; 2; 1].
+Proof. exact ex_preselect_commutes. Qed.
+
+(* --- "loading still succeeds": the errors option of get_dask_array and the getters --- *)
+(* The decision chain regenerated from the source (Generated.gen_errors_mode) gives: 'placeholder' -> stored chunk or
+   PlaceholderChunk; 'dryrun' -> always a PlaceholderChunk; 'raise' -> stored chunk or an exception; a number v -> stored
+   chunk or an array filled with v; any other string -> ValueError. *)
+Theorem C06_errors_modes : forall present v,
+  read_block (getter_of (EStr "placeholder")) present = (if present then BData else BPlaceholder) /\
+  read_block (getter_of (EStr "dryrun")) present = BPlaceholder /\
+  read_block (getter_of (EStr "raise")) present = (if present then BData else BRaise) /\
+  read_block (getter_of (ENum v)) present = (if present then BData else BFill v).
+Proof. exact read_block_modes. Qed.
+Print Assumptions C06_errors_modes.
+Theorem C06_errors_unknown_string_refused : forall s present,
+  s <> "placeholder"%string -> s <> "dryrun"%string -> s <> "raise"%string -> read_block (getter_of (EStr s)) present = BRaise.
+Proof. exact read_block_bad. Qed.
+Print Assumptions C06_errors_unknown_string_refused.
+
+(* What ChunkStoreVisFlagsWeights asks for (errors = DATA_LOST for flags, 'placeholder' otherwise): no block ever raises
+   because a chunk is absent, and the outputs computed through the getters, _default_zero and the PlaceholderChunk test
+   of _apply_data_lost are defined (Some) and equal to model_vis / model_weights / model_flags - for EVERY configuration
+   (no hypothesis). *)
+Theorem C06_absent_chunks_never_raise : forall c a J, vfw_block c a J <> BRaise.
+Proof. exact vfw_block_never_raises. Qed.
+Print Assumptions C06_absent_chunks_never_raise.
+Theorem C06_getters_refine_model : forall c p,
+  io_vis c p = Some (model_vis c p) /\ io_weights c p = Some (model_weights c p) /\ io_flags c p = Some (model_flags c p).
+Proof. intros c p. exact (conj (io_vis_refines c p) (conj (io_weights_refines c p) (io_flags_refines c p))). Qed.
+Print Assumptions C06_getters_refine_model.
+Example C06_getters_examples :
+  vfw_block ex_cfg A_VIS [1%nat; 1%nat; 0%nat] = BPlaceholder /\ vfw_block ex_cfg A_VIS [0%nat; 0%nat; 0%nat] = BData /\
+  read_block (getter_of (ENum 8)) false = BFill 8 /\ read_block (getter_of (EStr "dryrun")) true = BPlaceholder /\
+  read_block (getter_of (EStr "raise")) false = BRaise /\ read_block (getter_of (EStr "ignore")) true = BRaise /\
+  io_vis ex_cfg [1; 2; 1] = Some 0 /\ io_flags ex_cfg [1; 2; 1] = Some (Z.lor (stored ex_cfg A_FLAGS [1; 2; 1]) 8).
+Proof. exact ex_getters. Qed.
+
+(* --- histories: chunks that arrive or disappear between loads --- *)
+(* A load at any point of a history of put / delete operations (reader without state): every element shows the version
+   LAST written to its chunk, or zero + data_lost if that chunk was never written or removed since. *)
+Theorem C06_history_load : forall chunks win vals h p, cfg_ok (hist_cfg chunks win vals h) p ->
+  model_vis (hist_cfg chunks win vals h) p =
+    (match last_write h A_VIS (hist_id chunks win A_VIS p) with
+     | Some v => vals v A_VIS (hist_pos chunks win A_VIS p) | None => 0 end) /\
+  model_weights (hist_cfg chunks win vals h) p =
+    (match last_write h A_W (hist_id chunks win A_W p), last_write h A_WC (hist_id chunks win A_WC p) with
+     | Some v, Some v' => vals v A_W (hist_pos chunks win A_W p) * vals v' A_WC (hist_pos chunks win A_WC p)
+     | _, _ => 0 end) /\
+  model_flags (hist_cfg chunks win vals h) p =
+    Z.lor (match last_write h A_FLAGS (hist_id chunks win A_FLAGS p) with
+           | Some v => vals v A_FLAGS (hist_pos chunks win A_FLAGS p) | None => DATA_LOST end)
+          (if absent h A_VIS (hist_id chunks win A_VIS p) || absent h A_W (hist_id chunks win A_W p) ||
+              absent h A_WC (hist_id chunks win A_WC p) then DATA_LOST else 0).
+Proof.
+  intros chunks win vals h p H.
+  exact (conj (hist_vis _ _ _ _ _ H) (conj (hist_weights _ _ _ _ _ H) (hist_flags _ _ _ _ _ H))).
+Qed.
+Print Assumptions C06_history_load.
+(* the last operation on a chunk decides, operations on other chunks are irrelevant *)
+Theorem C06_history_last_operation_decides : forall h a id v o,
+  last_write (h ++ [Put a id v]) a id = Some v /\ last_write (h ++ [Del a id]) a id = None /\
+  (op_hits o a id = false -> last_write (h ++ [o]) a id = last_write h a id) /\ last_write [] a id = None.
+Proof.
+  intros h a id v o.
+  exact (conj (last_write_put h a id v) (conj (last_write_del h a id) (conj (last_write_other h o a id) (last_write_nil a id)))).
+Qed.
+Print Assumptions C06_history_last_operation_decides.
+(* two histories that leave the same chunks in the store are indistinguishable *)
+Theorem C06_history_only_final_state_matters : forall chunks win vals h1 h2 p,
+  (forall a id, last_write h1 a id = last_write h2 a id) -> cfg_ok (hist_cfg chunks win vals h1) p ->
+  model_vis (hist_cfg chunks win vals h1) p = model_vis (hist_cfg chunks win vals h2) p /\
+  model_weights (hist_cfg chunks win vals h1) p = model_weights (hist_cfg chunks win vals h2) p /\
+  model_flags (hist_cfg chunks win vals h1) p = model_flags (hist_cfg chunks win vals h2) p.
+Proof. exact hist_final_state. Qed.
+Print Assumptions C06_history_only_final_state_matters.
+(* a chunk that arrives after a load is seen by the next load; a chunk removed after a load is lost in the next one *)
+Theorem C06_history_late_chunk_seen : forall chunks win vals h v p, cfg_ok (hist_cfg chunks win vals h) p ->
+  model_vis (hist_cfg chunks win vals (h ++ [Put A_VIS (hist_id chunks win A_VIS p) v])) p =
+  vals v A_VIS (hist_pos chunks win A_VIS p).
+Proof. exact hist_put_seen. Qed.
+Print Assumptions C06_history_late_chunk_seen.
+Theorem C06_history_removed_chunk_lost : forall chunks win vals h a p, cfg_ok (hist_cfg chunks win vals h) p ->
+  (a = A_VIS \/ a = A_W \/ a = A_WC \/ a = A_FLAGS) ->
+  let c := hist_cfg chunks win vals (h ++ [Del a (hist_id chunks win a p)]) in
+  Z.testbit (model_flags c p) 3 = true /\ (a = A_VIS -> model_vis c p = 0) /\
+  (a = A_W \/ a = A_WC -> model_weights c p = 0).
+Proof. exact hist_del_lost. Qed.
+Print Assumptions C06_history_removed_chunk_lost.
+Example C06_history_example :
+  (forall h, cfg_ok (ex_hist h) [1; 2; 1]) /\
+  hist_id (c_chunks ex_cfg) [Some (1, 3)] A_VIS [1; 2; 1] = [2; 1; 0] /\
+  (model_vis (ex_hist ex_h0) [1; 2; 1], model_flags (ex_hist ex_h0) [1; 2; 1]) = (22, 23) /\
+  (model_vis (ex_hist (ex_h0 ++ [Del A_VIS [2;1;0]])) [1; 2; 1],
+   model_flags (ex_hist (ex_h0 ++ [Del A_VIS [2;1;0]])) [1; 2; 1]) = (0, 31) /\
+  (model_vis (ex_hist (ex_h0 ++ [Del A_VIS [2;1;0]; Put A_VIS [2;1;0] 1])) [1; 2; 1],
+   model_flags (ex_hist (ex_h0 ++ [Del A_VIS [2;1;0]; Put A_VIS [2;1;0] 1])) [1; 2; 1]) = (122, 23).
+Proof. exact (conj ex_hist_ok ex_hist_values). Qed.
+
+(* --- chunk_info records: _upgrade_chunk_info, _align_chunk_info (shape AND chunks fields) --- *)
+(* after alignment every array has the dump count of the longest; its dump-axis chunks are the GIVEN chunks followed by
+   one-dump phantom chunks (nothing described as stored is dropped), other axes untouched; aligning twice = once *)
+Theorem C06_align_info : forall all,
+  (forall i, In i (align_info all) -> info_dumps i = info_max_dumps all) /\
+  (forall maxd i, hd [] (i_chunks (align_info_one maxd i)) = hd [] (i_chunks i) ++ repeat 1 (Z.to_nat (maxd - info_dumps i)) /\
+                  tl (i_chunks (align_info_one maxd i)) = tl (i_chunks i) /\
+                  tl (i_shape (align_info_one maxd i)) = tl (i_shape i)) /\
+  align_info (align_info all) = align_info all.
+Proof. intro all. exact (conj (align_info_dumps all) (conj align_info_one_chunks (align_info_idempotent all))). Qed.
+Print Assumptions C06_align_info.
+(* on consistent records (shape = sums of the chunks) the chunk lists are Model.LostMap.align (the function the main
+   theorems and C06_phantom_dumps_lost are about), and consistency is preserved *)
+Theorem C06_align_info_refines_align : forall all, Forall info_consistent all ->
+  map i_chunks (align_info all) = align (map i_chunks all) /\ Forall info_consistent (align_info all).
+Proof. exact align_info_consistent. Qed.
+Print Assumptions C06_align_info_refines_align.
+(* _upgrade_chunk_info refuses iff the shapes differ beyond the dump axis; otherwise the whole improved record replaces
+   the entry (its dump count, every one of its chunks) and nothing else changes *)
+Theorem C06_upgrade_info : forall all key imp orig, nth_error all key = Some orig ->
+  (tl (i_shape imp) <> tl (i_shape orig) -> upgrade_info all key imp = None) /\
+  (tl (i_shape imp) = tl (i_shape orig) ->
+     exists r, upgrade_info all key imp = Some r /\ nth_error r key = Some imp /\
+               List.length r = List.length all /\ forall k, k <> key -> nth_error r k = nth_error all k).
+Proof. exact upgrade_info_spec. Qed.
+Print Assumptions C06_upgrade_info.
+(* an attached flags stream: every array ends with the dump count of the longest of ALL arrays (the flags stream
+   included, so a longer flags stream extends the data set), and the flags array keeps every chunk of the stream *)
+Theorem C06_flags_stream_chunks_all_kept : forall l0 f orig,
+  nth_error l0 A_FLAGS = Some orig -> tl (i_shape f) = tl (i_shape orig) ->
+  exists u r fl, upgrade_info l0 A_FLAGS f = Some u /\ source_info l0 (Some f) = Some r /\
+    nth_error r A_FLAGS = Some fl /\
+    (forall i, In i r -> info_dumps i = info_max_dumps u) /\
+    info_dumps f <= info_max_dumps u /\
+    (forall k i, k <> A_FLAGS -> nth_error l0 k = Some i -> info_dumps i <= info_max_dumps u) /\
+    hd [] (i_chunks fl) = hd [] (i_chunks f) ++ repeat 1 (Z.to_nat (info_max_dumps u - info_dumps f)) /\
+    tl (i_chunks fl) = tl (i_chunks f).
+Proof. exact source_info_flags_stream. Qed.
+Print Assumptions C06_flags_stream_chunks_all_kept.
+Example C06_flags_stream_example :
+  source_info ex_l0 (Some (ex_info [8;8;4] [[3;3;2]; [4;4]; [4]])) =
+    Some [ex_info [8;8;4] [[1;1;1;1;1;1;1;1]; [4;4]; [4]]; ex_info [8;8;4] [[3;3;2]; [4;4]; [4]];
+          ex_info [8;8;4] [[2;2;2;1;1]; [8]; [2;2]]; ex_info [8;8] [[1;1;1;1;1;1;1;1]; [8]]] /\
+  source_info ex_l0 (Some (ex_info [8;8;2] [[3;3;2]; [4;4]; [2]])) = None /\
+  Forall info_consistent ex_l0.
+Proof. exact ex_source_info. Qed.
+
+(* --- laws a user relies on --- *)
+(* nothing absent: the load is exactly what is stored (no flag bit, no value changed) *)
+Theorem C06_nothing_lost_identity : forall c p, cfg_ok c p -> (forall a id, c_miss c a id = false) ->
+  model_vis c p = stored c A_VIS p /\ model_weights c p = stored c A_W p * stored c A_WC p /\
+  model_flags c p = stored c A_FLAGS p.
+Proof. exact no_loss_identity. Qed.
+Print Assumptions C06_nothing_lost_identity.
+Example C06_nothing_lost_example :
+  let c := with_miss ex_cfg (fun _ _ => false) in
+  cfg_ok c [1; 2; 1] /\ model_vis c [1; 2; 1] = stored c A_VIS [1; 2; 1] /\ model_vis c [1; 2; 1] <> 0 /\
+  model_flags c [1; 2; 1] = stored c A_FLAGS [1; 2; 1].
+Proof. exact ex_no_loss. Qed.
+(* losing MORE chunks never clears a data_lost bit and never alters an element that is still delivered *)
+Theorem C06_loss_monotone : forall c m p, cfg_ok c p -> (forall a id, c_miss c a id = true -> m a id = true) ->
+  (Z.testbit (model_flags c p) 3 = true -> Z.testbit (model_flags (with_miss c m) p) 3 = true) /\
+  (model_vis (with_miss c m) p <> 0 -> model_vis (with_miss c m) p = model_vis c p) /\
+  (model_weights (with_miss c m) p <> 0 -> model_weights (with_miss c m) p = model_weights c p).
+Proof. exact loss_monotone. Qed.
+Print Assumptions C06_loss_monotone.
+(* _apply_data_lost: order of the (chunk, slices) pairs irrelevant; idempotent; pairs whose chunk is present are ignored
+   (so a flags chunk under which nothing is lost is returned as it is) *)
+Theorem C06_apply_data_lost_laws : forall ph orig l l' q,
+  (Permutation l l' -> apply_data_lost ph orig l q = apply_data_lost ph orig l' q) /\
+  apply_data_lost ph (apply_data_lost ph orig l q) l q = apply_data_lost ph orig l q /\
+  ((forall e, In e l -> ph (fst (fst e)) (snd (fst e)) = false) -> apply_data_lost ph orig l q = orig).
+Proof.
+  intros ph orig l l' q.
+  exact (conj (apply_data_lost_perm ph orig l l' q) (conj (apply_data_lost_idem ph orig l q) (apply_data_lost_none ph orig l q))).
+Qed.
+Print Assumptions C06_apply_data_lost_laws.
+
+(* every round-2 construct the model uses is the one found in the current source (fail-closed translator items
+   item_getters, item_prune_head, item_preselect, item_lostmap); the model's getter_of / prune_index_ok /
+   preselect_index / align_info / upgrade_info are DEFINED through these generated definitions *)
+Theorem C06_round2_translated_source :
+  gen_prune_ok_steps = [Some 1; None] /\ gen_preselect_ok_steps = [None; Some 1] /\
+  gen_preselect_keys = ["channels"%string; "dumps"%string] /\ gen_preselect_axis_order = ["dumps"%string; "channels"%string] /\
+  gen_other_errors = "placeholder"%string /\ (forall d, gen_placeholder_asks_store d = negb d) /\
+  (forall n m, gen_align_pads n m = (n <? m)) /\ gen_align_phantom_size = 1 /\
+  (forall n m, gen_align_phantom_count n m = m - n) /\ gen_upgrade_compares_shape_from = 1%nat /\
+  gen_gda_prunes_iff_index_nonempty = true /\ gen_gda_slices_after_prune = true /\ gen_lostmap_literal = true /\
+  gen_source_upgrades_then_aligns = true /\ gen_npy_get_chunk_stateless = true /\ gen_fallback_only_on_not_found = true.
+Proof. repeat split; reflexivity. Qed.
+Print Assumptions C06_round2_translated_source.
+
+(* ================================================================================================================ *)
+(* Round 2b: lost data under the processing options that sit between the chunk store and the user (they act on the
+   zero-filled arrays): van_vleck='autocorr' and the division of the weights by the autocorrelation power.
+   Numeric kernels: C15's Model/Weights.v. *)
+From Coq Require Import QArith Qcanon.
+From KV Require Import Model.Interp Model.Weights Model.LostOpt Proofs.WeightsP Proofs.LostOptP.
+Close Scope Q_scope.
+
+(* "visibilities are zero exactly on the elements covered by their own missing chunks" survives van_vleck='autocorr':
+   for every strictly increasing lookup table that starts with the anchor found in the source (gen_vv_anchor, (0, 0)) the
+   zero fill of a lost chunk stays exactly 0 (autocorrelations through np.interp, cross-correlations untouched). *)
+Theorem C06_lost_vis_zero_under_van_vleck : forall vv is_auto t x,
+  vv = None \/ (vv = Some (vv_anchor :: t) /\ strictly_inc (vv_anchor :: t)) ->
+  opt_vis_re vv is_auto (delivered true x) = Fin 0.
+Proof. exact opt_vis_lost. Qed.
+Print Assumptions C06_lost_vis_zero_under_van_vleck.
+(* ... and the anchor is what makes it so: a strictly increasing table without it sends 0 to its first true-power entry *)
+Theorem C06_van_vleck_without_anchor_refuted : exists table, strictly_inc table /\ vv_interp table (Fin 0) <> Fin 0.
+Proof. exact vv_without_anchor_refuted. Qed.
+Print Assumptions C06_van_vleck_without_anchor_refuted.
+
+(* weights under stored_weights_are_scaled True / False, any autocorrelation powers (lost, zero, infinite, NaN): a lost
+   weights or weights_channel chunk gives EXACTLY zero; a lost autocorrelation visibility under power scaling gives the
+   documented substitute bad_weight * stored weight (never a large weight); everything else is computed from the same
+   inputs as without the loss.  weight_class is the decision table the correspondence uses. *)
+Theorem C06_lost_weights_under_options : forall divided l1 l2 wl a1 a2 sw,
+  opt_weight divided (delivered l1 a1) (delivered l2 a2) (delivered wl sw) =
+  match weight_class divided l1 l2 wl with
+  | 0 => Fin 0
+  | 1 => emul (Fin bad_weight) sw
+  | _ => opt_weight divided a1 a2 sw
+  end.
+Proof. exact weight_class_correct. Qed.
+Print Assumptions C06_lost_weights_under_options.
+Example C06_options_examples :
+  weight_class true true false false = 1 /\ weight_class true false false false = 2 /\
+  weight_class true true true true = 0 /\ weight_class false true true false = 2 /\ vis_class true = 0 /\
+  opt_weight true (Fin 0) (Fin (Q2Qc 3)) (Fin (Q2Qc 5)) = Fin (bad_weight * Q2Qc 5)%Qc /\
+  gen_weights_divided true false = true /\ gen_weights_divided true true = false /\ gen_weights_divided false true = false.
+Proof. exact ex_weight_classes. Qed.
+
+(* --- a store that serves views of arrays it owns (DictChunkStore) --- *)
+(* Trailing dumps missing from an array held by such a store: asked for the chunks of the aligned chunk list (the chunks
+   that were written ++ one-dump phantom chunks) the store FINDS every written chunk and reports every phantom chunk as
+   not found - never as a malformed chunk - so the getters of C06_absent_chunks_never_raise apply (finding C06-F2, fixed:
+   NumPy slicing beyond the end silently gave an empty array and the load raised BadChunk). *)
+Theorem C06_view_store_trailing_dumps_not_found : forall t k j rest_shape rest_sl,
+  allpos t -> (j < List.length t + k)%nat -> dict_get_chunk rest_shape rest_sl = Found ->
+  dict_get_chunk (zsum t :: rest_shape) (chunk_slice (t ++ repeat 1 k) j :: rest_sl) =
+  if Nat.ltb j (List.length t) then Found else NotFound.
+Proof. exact dict_store_dump_axis. Qed.
+Print Assumptions C06_view_store_trailing_dumps_not_found.
+Example C06_view_store_examples :
+  dict_get_chunk [3; 4] [(2, 3); (0, 4)] = Found /\ dict_get_chunk [3; 4] [(3, 4); (0, 4)] = NotFound /\
+  dict_get_chunk [3; 4] [(2, 4); (0, 4)] = Malformed /\ dict_get_chunk [3; 4] [(1, 1); (4, 4)] = Found /\
+  chunk_slice ([2; 1] ++ repeat 1 2) 3 = (4, 5).
+Proof. exact ex_dict_store. Qed.
